@@ -426,10 +426,14 @@ func parseMavenCanon(s string) (mavenParts, bool) {
 		return mavenParts{}, false
 	}
 	p := mavenParts{nums: strings.Split(m[1], "."), qn: "0"}
-	for _, n := range p.nums {
-		if !noLeadingZero(n) {
-			return p, false
+	for i, n := range p.nums {
+		// ComparableVersion turns a run of digits into an integer item, so leading zeros in a
+		// numeric component carry no meaning ("1.00.1" is "1.0.1", "1.01" is "1.1")
+		t := strings.TrimLeft(n, "0")
+		if t == "" {
+			t = "0"
 		}
+		p.nums[i] = t
 	}
 	q := strings.ToLower(m[2])
 	r, known := mavenRank[q]
